@@ -78,8 +78,10 @@ OBLIGATIONS = [
   {"func": "col_ident", "cond_timeout": 240, "desc": "column id valid, unused case-insensitively, identity on valid unused names"},
   {"func": "table_ident", "cond_timeout": 240, "desc": "table id valid, starts uppercase, unused, identity on valid unused names"},
   {"func": "none_ident", "cond_timeout": 60, "desc": "no requested name"},
-  {"func": "ident_list", "cond_timeout": 300, "desc": "batch of 3: all valid, distinct from avoid set and from each other"},
 ]
+_ONE = [""] + list(ALPHA)
+ENUM = [{"func": "ident_list", "domains": {"a": list(range(len(AVOID))), "s1": _ONE, "s2": _ONE, "s3": [None] + list(ALPHA)},
+         "shard_by": "a", "max_s": 300, "desc": "batch of 3 (each <= 1 char or None): all valid, distinct from the avoid set and from each other"}]
 BOUNDS = {"requested name": "len <= %d over the 16-symbol alphabet %r (or None)" % (ML, ALPHA),
           "existing-name sets": [sorted(x) for x in AVOID], "batch": "3 names (lengths <= %d, %d, 1)" % (ML - 1, ML - 1)}
 FILES = ["sandbox/grist/identifiers.py"]
